@@ -214,5 +214,6 @@ def suites(tier: str) -> t.List[Suite]:
     return [
         Suite('fixedpoint', check, strategy=lambda: cases(gen.all_type_specs(leaves)), examples=8000 if big else 600,
               budget_s=480 if big else 40, render=render),
+        Suite('overlap-unions', check, strategy=lambda: cases(gen.overlap_union_specs()), examples=3000 if big else 250, budget_s=240 if big else 25, render=render),
         Suite('range', check_range, strategy=range_cases, examples=300 if big else 40, budget_s=60),
     ]
